@@ -26,17 +26,14 @@ def run_check(tier):
     scen8 = []
     pairs = []
     for ps, ws in slices:
-        part = mp.gen("MC_LoadScript", {"Mode": '"fields"', "MaxOps": 2, "Widths": ws, "Pads": mp.tla_set(ps)},
-                      ["SentinelIntact", "UnchangedOnFailure", "Export"], "fields-w8-p%d-%s" % (ps[0], ws[1]), chk, timeout=3000, xmx="8g")
-        for lo in range(0, len(part), 50000):          # bounded memory: observations of 50k scenarios x 5 media at a time
-            pp = mp.replay(part[lo:lo + 50000], ["mem", "sstream", "short3", "nonseek"] if quick else mp.MEDIA_SEEKABLE + ["nonseek"], 8, "f8")
+        for part in mp.gen_chunks("MC_LoadScript", {"Mode": '"fields"', "MaxOps": 2, "Widths": ws, "Pads": mp.tla_set(ps)},
+                                  ["SentinelIntact", "UnchangedOnFailure", "Export"], "fields-w8-p%d-%s" % (ps[0], ws[1]), chk, timeout=3000, xmx="8g", chunk=50000):
+            pp = mp.replay(part, ["mem", "sstream", "short3", "nonseek"] if quick else mp.MEDIA_SEEKABLE + ["nonseek"], 8, "f8")
             mp.judge(chk, pp, "MsgPack scripted load")
             mp.validate_scope_states(chk, pp, "MsgPack scripted load")
-            chk.add_cases(len(pp), validated=len(pp))
-            del pp
-        chk.add_cases(0, distinct_keys=((json.dumps(s["doc"]), json.dumps(s["root"]), json.dumps(s["pol"])) for s in part))
-        scen8 = part[:50]
-        del part
+            chk.add_cases(len(pp), distinct_keys=((json.dumps(s["doc"]), json.dumps(s["root"]), json.dumps(s["pol"])) for s in part), validated=len(pp))
+            scen8 = scen8 or part[:50]
+            del pp, part
     if not quick:
         # longer histories (up to 6 requests) by seeded simulation of the same state machine
         sim = mp.gen("MC_LoadScript", {"Mode": '"fields"', "MaxOps": 6, "Widths": "{0, 2}", "Pads": "{0, 3}"},
